@@ -31,3 +31,10 @@ CASES += [
                 (T, "         os << std::endl << mIndentSpaces;\n      } // end if\n\n      formatLine( os, tiNL);",
                  "         os << std::endl;\n         writeIndent( os);\n      } // end if\n\n      formatLine( os, tiNL);")]),
 ]
+
+CASES += [
+    dict(id='c17-nn-test-by-rfind-prefix', prop='C17', file=T, expect='R1',
+         old="      if (tiWord == \"nn\")", new="      if (tiWord.rfind( \"nn\", 0) == 0)"),
+    dict(id='c17-eq-nn-test-by-compare', prop='C17', file=T, expect=None,
+         old="      if (tiWord == \"nn\")", new="      if (tiWord.compare( \"nn\") == 0)"),
+]
